@@ -368,3 +368,54 @@ func columnOf(v ssa.Value, d int) (int64, bool) {
 	}
 	return 0, false
 }
+
+func init() {
+	register(&Rule{
+		ID: "metriclog.index-in-same-file", Props: []string{"C17"}, Floor: 1,
+		Doc: "in DefaultMetricLogWriter.Write no call that can replace the current file (anything reaching closeCurAndNewFile: day roll, size roll) lies on a path between writing the index entry of a second and writing that second's lines: the index entry and the lines it points to end up in the same file pair (otherwise the lines become unreachable once the file holding the index entry is removed)",
+		Run: func(c *Ctx) {
+			w := c.P.Func(mlPkg + ".(*DefaultMetricLogWriter).Write")
+			wi := c.P.Func(mlPkg + ".(*DefaultMetricLogWriter).writeIndex")
+			wl := c.P.Func(mlPkg + ".(*DefaultMetricLogWriter).writeItemsAndFlush")
+			nf := c.P.Func(mlPkg + ".(*DefaultMetricLogWriter).closeCurAndNewFile")
+			if w == nil || wi == nil || wl == nil || nf == nil {
+				c.AnchorLost("metric writer functions")
+				return
+			}
+			// functions that can switch files
+			par, _ := c.P.Reach([]*ssa.Function{w}, false)
+			canRoll := map[*ssa.Function]bool{}
+			for f := range par {
+				p2, _ := c.P.Reach([]*ssa.Function{f}, false)
+				if _, ok := p2[nf]; ok && f != w {
+					canRoll[f] = true
+				}
+			}
+			var idxCall, linesCall ssa.Instruction
+			for _, ci := range callsIn(w) {
+				if isStaticCallTo(ci, wi) {
+					idxCall = ci.(ssa.Instruction)
+				}
+				if isStaticCallTo(ci, wl) {
+					linesCall = ci.(ssa.Instruction)
+				}
+			}
+			if idxCall == nil || linesCall == nil {
+				c.Violate(fnKey(w)+" / calls", w.Pos(), "Write must write an index entry and the lines")
+				return
+			}
+			bad := ""
+			for _, ci := range callsIn(w) {
+				cal := ci.Common().StaticCallee()
+				if cal == nil || !canRoll[cal] {
+					continue
+				}
+				in := ci.(ssa.Instruction)
+				if instrReaches(idxCall, in) && instrReaches(in, linesCall) {
+					bad = fmt.Sprintf("%s at %s", cal.Name(), c.P.Pos(ci.Pos()))
+				}
+			}
+			c.Check(bad == "", fnKey(w)+" / no-roll-between-index-and-lines", idxCall.Pos(), "a file roll (%s) can happen after the index entry of a second was written and before its lines are: the entry lands in the old file's index while the lines open the new file", bad)
+		},
+	})
+}
